@@ -5,11 +5,8 @@ from lib.gen import rand_fr
 
 def check(run):
     run.level = "proof"
-    try:
-        from checks import _tree_theorems
-        run.prove("ZkProofs.C07", _tree_theorems.C07)
-    except ImportError:
-        run.note("proof module for C07 not present yet")
+    from checks import _tree_theorems
+    run.prove(_tree_theorems.C07)
     rng = run.rng
     quick = run.tier == "quick"
     nseq = 40 if quick else 400
@@ -20,12 +17,15 @@ def check(run):
         seq = treegen.gen_seq(rng, backend, depth, nops, kinds, observe="some")
         # proofs of every position on small trees, of boundary and random positions on deep ones
         positions = list(range(cap)) if depth <= 4 else sorted({0, 1, cap - 1, cap // 2, cap // 2 - 1} | {rng.randrange(cap) for _ in range(6)})
+        if depth > 8:
+            positions = sorted({0, cap - 1, rng.randrange(cap), rng.randrange(min(cap, 64))})
         for i in positions:
             seq.append(f"proof {hex(i)}")
         seq.append(f"proof {hex(cap)}")          # outside the tree: an error, never a crash
         # alterations: every sibling, every direction bit, another leaf value
-        for i in positions[: (6 if quick else 16)]:
-            for k in range(depth):
+        deep = depth > 8
+        for i in positions[: (3 if deep else 6 if quick else 16)]:
+            for k in ([0, depth // 2, depth - 1] if deep else range(depth)):
                 seq.append(f"pverify {hex(i)} sib {k} {hex(rand_fr(rng))}")
                 seq.append(f"pverify {hex(i)} dir {k} 0x0")
             seq.append(f"pverify {hex(i)} leaf 0 {hex(rand_fr(rng))}")
@@ -35,7 +35,7 @@ def check(run):
         for k in range(nseq):
             depth = rng.choice([1, 2, 3, 4, 5] if quick else [1, 2, 3, 4, 5, 6, 7])
             seqs.append(mk(backend, depth, rng.randint(0, 10 if quick else 30)))
-        for k in range(2 if quick else 12):
-            seqs.append(mk(backend, rng.choice([10, 20]), rng.randint(2, 8)))
+        for k in range(1 if quick else 12):
+            seqs.append(mk(backend, rng.choice([10, 20]), rng.randint(2, 5)))
         run.differential(f"proof-{backend}", seqs)
     run.rules.append("random histories, then for every position (depth <= 4) or boundary+random positions: the proof's siblings, direction bits, length, decoded index, recomputed root, own check; then every single-sibling replacement, every direction-bit flip and a foreign leaf value must be rejected unless the ideal tree says the altered path still recomputes the root; distinct = distinct op sequence")
